@@ -124,6 +124,8 @@ type scenario struct {
 	// ExtOn = [e, y] (nil = none): while the buffer runs Process(e), the application connects y through
 	// another route (if y's parents are connected by then), as a local emitter or a second path would
 	ExtOn []int
+	// NoReleased: the application installs no Released callback (the per-copy bookkeeping must not depend on it)
+	NoReleased bool
 }
 
 func (sc scenario) String() string {
@@ -131,7 +133,7 @@ func (sc scenario) String() string {
 	for _, x := range sc.Ops {
 		o = append(o, x.String())
 	}
-	return fmt.Sprintf("dag{%v} limit=%v failCheck=%v failProcess=%v connectDuringProcess=%v ops=[%s]", sc.Shape, sc.Limit, sc.FailCheck, sc.FailProcess, sc.ExtOn, strings.Join(o, " "))
+	return fmt.Sprintf("dag{%v} limit=%v failCheck=%v failProcess=%v connectDuringProcess=%v ops=[%s]", sc.Shape, sc.Limit, sc.FailCheck, sc.FailProcess, sc.ExtOn, strings.Join(o, " ")) + map[bool]string{true: " (no Released callback)", false: ""}[sc.NoReleased]
 }
 
 var errInjected = errors.New("injected failure")
@@ -179,7 +181,7 @@ func newMonitor(sc scenario) (*monitor, *dagordering.EventsBuffer) {
 		}
 		return pc
 	}
-	buf := dagordering.New(sc.Limit, dagordering.Callback{
+	cb := dagordering.Callback{
 		Process: func(e dag.Event) error {
 			pc := cpOf(e)
 			st := m.copies[pc.tag]
@@ -250,7 +252,11 @@ func newMonitor(sc scenario) (*monitor, *dagordering.EventsBuffer) {
 			}
 			return nil
 		},
-	})
+	}
+	if sc.NoReleased {
+		cb.Released = nil
+	}
+	buf := dagordering.New(sc.Limit, cb)
 	return m, buf
 }
 
@@ -272,7 +278,7 @@ func (m *monitor) final(buf *dagordering.EventsBuffer, complete bool) {
 		m.fail("not-empty-after-clear", "Total()=%v after Clear()", t)
 	}
 	for tag, st := range m.copies {
-		if st.released != 1 {
+		if st.released != 1 && !m.sc.NoReleased {
 			m.fail("release-count", "pushed copy %d was reported released %d times by the time Clear() returned", tag, st.released)
 		}
 	}
@@ -407,6 +413,7 @@ func seqPart(c *core.Ctx, n int, extras bool, pairs bool) {
 			for i := 0; i < n; i++ {
 				try(scenario{Shape: sh, Ops: append([]op{}, base...), Limit: inf, FailCheck: []int{i}})
 				try(scenario{Shape: sh, Ops: append([]op{}, base...), Limit: inf, FailProcess: []int{i}})
+				try(scenario{Shape: sh, Ops: append([]op{}, base...), Limit: inf, FailProcess: []int{i}, NoReleased: true})
 				try(scenario{Shape: sh, Ops: append([]op{}, base...), Limit: dag.Metric{Num: 2, Size: math.MaxUint64}, FailProcess: []int{i}})
 				if pairs {
 					for j := i + 1; j < n; j++ {
